@@ -376,6 +376,12 @@ int32_t carquet_reader_filter_row_groups(
         return -1;
     }
 
+    /* A column that does not exist is the caller's error, not a reason to
+     * report every row group as a possible match */
+    if (column_index < 0 || column_index >= reader->schema->num_leaves) {
+        return -1;
+    }
+
     int32_t num_row_groups = carquet_reader_num_row_groups(reader);
     int32_t num_matching = 0;
 
